@@ -67,8 +67,9 @@ func (p *Parser) parseNext() error {
 
 	c := p.data[p.pos]
 
-	// Check for potential operator (starts with letter)
-	if isLetter(c) {
+	// Check for potential operator (starts with letter, or is one of the
+	// single-character text operators ' and ")
+	if isLetter(c) || c == '\'' || c == '"' {
 		return p.parseOperator()
 	}
 
